@@ -2,8 +2,38 @@
    ONLY statements: each theorem is closed by `exact` of a lemma proved elsewhere and followed by Print Assumptions. *)
 From Coq Require Import ZArith NArith List Bool Lia Permutation SpecFloat.
 Import ListNotations.
-Require Import Base Builtins LinkArith Float Strings Arith LinkKinds Eq Complex.
+Require Import Base Float Strings Builtins Interp Machine Spec Refine2 RunG Order LinkArith Arith LinkKinds Eq Complex.
 Open Scope Z_scope.
+(* ㅈ decides the order of the EXACT values of finite reals - integers of any size, doubles in canonical form, mixed freely (sval = value * 2^1074, an integer) *)
+Theorem lt_is_value_order a b :
+  finite_real a -> finite_real b -> (lt_val a b = true <-> sval a < sval b).
+Proof. exact (Order.lt_is_value_order a b). Qed.
+Print Assumptions lt_is_value_order.
+
+Theorem lt_irreflexive a :
+  finite_real a -> lt_val a a = false.
+Proof. exact (Order.lt_irreflexive a). Qed.
+Print Assumptions lt_irreflexive.
+
+Theorem lt_transitive a b c :
+  finite_real a -> finite_real b -> finite_real c -> lt_val a b = true -> lt_val b c = true -> lt_val a c = true.
+Proof. exact (Order.lt_transitive a b c). Qed.
+Print Assumptions lt_transitive.
+
+(* a strict TOTAL order: exactly one of a < b, b < a, equal values *)
+Theorem lt_trichotomy a b :
+  finite_real a -> finite_real b ->
+  (lt_val a b = true /\ lt_val b a = false /\ sval a <> sval b) \/ (lt_val a b = false /\ lt_val b a = true /\ sval a <> sval b) \/ (lt_val a b = false /\ lt_val b a = false /\ sval a = sval b).
+Proof. exact (Order.lt_trichotomy a b). Qed.
+Print Assumptions lt_trichotomy.
+
+(* the built-in on evaluated arguments is that comparison *)
+Theorem bi_lt_is_lt_val (rec:list positive -> heap -> world -> task -> out) sp a b ip h w :
+  finite_real a -> finite_real b ->
+  runG rec value ip h w (bi_lt sp [a; b]) = DoneG h w (inl (VBool (lt_val a b))) 0.
+Proof. exact (Order.bi_lt_is_lt_val rec sp a b ip h w). Qed.
+Print Assumptions bi_lt_is_lt_val.
+
 (* about the kernel REGENERATED from arithmetics.py *)
 Theorem int_div_is_quot a d :
   d <> 0 -> GenArith.gen_int_div a d = Z.quot a d.
